@@ -231,6 +231,51 @@ class H1stable(_QuadCase):
         return obs
 
 
+class H1args(_QuadCase):
+    """memo keys cover ALL call arguments: on ONE object the memoised methods are called at the same tau /
+    cell with different matsubara / epsrel / subdiv_limit values, in two orders; every answer == answer of
+    a freshly built equal object for the same arguments (results depend only on the current arguments,
+    not on earlier calls: e.g. the same bath handed to Tempo and to GibbsTempo on the same grid).
+    The quadrature stand-in depends on (integrand value, limits) and, through an uninterpreted term, on
+    (epsrel, limit).  Real stack: real-time vs Matsubara values differ visibly; a dependence on
+    epsrel / subdiv_limit alone is usually below the comparison tolerance there (a solver model for such a
+    breakage would come out as inconclusive, exit 2, not as success)."""
+    functions = ("bath_correlations.CustomSD.eta_function", "bath_correlations.CustomSD.correlation_2d_integral")
+
+    def __init__(self, cls, method):
+        self.cls, self.method = cls, method
+        self.id = "H1/args_%s_%s" % (cls, method)
+        self.bounds = {"class": cls, "method": method, "variants": "matsubara in {F,T}, epsrel in {default, 2^-20}, subdiv_limit in {default, 40}; times <= 1/T"}
+        self._setup()
+
+    def _quad(self, inp):
+        wstar = inp.real("wstar", lo=Fr(1, 2), hi=2)
+        self.late.set(bs.UFQuad(inp, wstar, tol_dependent=True))
+
+    def run(self, inp):
+        P = Par(inp)
+        # imaginary time lives in [0, 1/T]: keep every queried time below 1/T (documented Matsubara domain)
+        P.T = inp.real("Tm", lo=Fr(1, 2), hi=1)
+        P.tau = inp.real("taum", lo=Fr(1, 4), hi=Fr(1, 2))
+        self._quad(inp)
+        variants = [("default", {}), ("matsubara", {"matsubara": True}), ("epsrel", {"epsrel": 2.0 ** -20}),
+                    ("subdiv_limit", {"subdiv_limit": 40}), ("matsubara+epsrel", {"matsubara": True, "epsrel": 2.0 ** -20}),
+                    ("default again", {})]
+
+        def call(o, kw):
+            if self.method == "eta_function":
+                return o.eta_function(P.tau, **kw)
+            return o.correlation_2d_integral(P.delta, P.tau, shape="upper-triangle", **kw)
+        fresh = [call(P.build(self.cls), kw) for _, kw in variants]
+        obs = []
+        for oname, order in (("forward", list(range(len(variants)))), ("backward", list(reversed(range(len(variants)))))):
+            o = P.build(self.cls)
+            for i in order:
+                nm, kw = variants[i]
+                obs.append(Ob.eq("%s order: %s(%s) == fresh object" % (oname, self.method, nm), call(o, kw), fresh[i], key="args_history"))
+        return obs
+
+
 class H1sys(Case):
     """System.liouvillian memo: System has no public mutator (hamiltonian/gammas/lindblad_operators are
     read-only properties returning copies), so the memo cannot go stale through public updates; checked:
@@ -873,6 +918,9 @@ def cases(tier):
                 continue
             cs.append(H1(cls, attr, m))
     cs += [H1cc("correlation"), H1cc("correlation_2d_integral"), H1sys(), H1stable("sd"), H1stable("pl")]
+    cs += [H1args("sd", "eta_function"), H1args("pl", "correlation_2d_integral")]
+    if th:
+        cs += [H1args("pl", "eta_function"), H1args("sd", "correlation_2d_integral")]
     # H2
     h2 = [("sd", "temperature", "correlation"), ("sd", "temperature", "attribute"), ("sd", "cutoff", "spectral_density"),
           ("sd", "cutoff", "attribute"), ("pl", "alpha", "spectral_density"), ("pl", "alpha", "correlation")]
